@@ -200,6 +200,12 @@ func c06MoreShares(r *Run) {
 	// "… at a single index whose stored entry decodes to the submitted certificate and chain": the extra data
 	// handed to the backend has the form the readers decode (full chain unless a chain hash was computed) and
 	// carries the validated chain — rule sets C01.R5 (leaf construction) and C01.R6 (what the chain service passes)
+	// "found by the leaf hash a client computes from the certificate and the SCT alone": every leaf a client builds
+	// for an SCT and hashes carries that SCT's extensions — rule set C04.R10
+	r.Shared("C06.R12", func() {
+		r.Rule("C04.R10")
+		c04SCTLeafExtensions(r)
+	})
 	r.Shared("C06.R11", func() {
 		r.Rule("C01.R5")
 		c01LogLeaf(r)
